@@ -62,7 +62,7 @@ if [ "$mode" = "--replay" ]; then
   class=$(printf '%s' "$out" | python3 -c "import json,sys; d=json.load(sys.stdin); print(d['class']); sys.stderr.write(d['detail'][:4000]+'\n')")
   want=$(python3 -c "import json,sys; print(json.load(open(sys.argv[1]))['violation_class'])" "$file")
   echo "replayed class: '${class}'  recorded class: '${want}'"
-  if [ -n "$class" ] && [ "$class" = "$want" ]; then
+  if [ -n "$class" ] && { [ "$class" = "$want" ] || { [ "${class#race:}" != "$class" ] && [ "${want#race:}" != "$want" ]; }; }; then
     echo "VIOLATION property=$id replay=$file"
     exit 1
   fi
